@@ -698,6 +698,24 @@ def memory_cases():
             _, _, _, c, d, val = s.log[2]
             ctx.oblige("CALLDATACOPY copies calldata[off, off+size) to memory[dst, dst+size)", z3.And(ie(a) == F, ie(b) == F + N, ie(c) == D, ie(d) == D + N, z3.BoolVal(val is r)))
 
+    for off in (0, 5, 40):
+
+        def harness_cdcopy_create(interp, off=off):
+            ctx = interp.ctx
+            dst = mem_loc(ctx, "dst")
+            ctx.assume(dst._value.e + 32 <= MAXMEM)
+            s = Step(interp, bytes([hs.OP_CALLDATACOPY, 0]), [dst, hb.HalmosBitVec(off), hb.HalmosBitVec(32)], scheme=hs.OP_CREATE)
+            s.run()
+            if not s.expect_continue(0, "CALLDATACOPY"):
+                return
+            reads = [e for e in s.log if e[0] in ("slice", "get_word", "get_byte") and e[1] is s.calldata]
+            ctx.oblige("inside a creation frame CALLDATACOPY does not read the init code (a creation has no calldata)", z3.BoolVal(not reads), info={"log": str([e[0] for e in s.log])})
+            writes = [e for e in s.log if e[0] == "set_slice" and e[1] is s.mem]
+            ok = len(writes) == 1 and isinstance(writes[0][5], ByteVec) and not isinstance(writes[0][5], GBytes) and len(writes[0][5]) == 32 and writes[0][5].unwrap() == bytes(32)
+            ctx.oblige("inside a creation frame CALLDATACOPY writes `size` zero bytes at the destination", z3.BoolVal(ok) if not ok else z3.And(ie(writes[0][3]) == dst._value.e, ie(writes[0][4]) == dst._value.e + 32))
+
+        out.append(Case(f"{PROP}/sevm.SEVM.run#CALLDATACOPY", f"creation frame, offset {off}", harness_cdcopy_create, replay=replay_constructor_calldatacopy, sources=RUN_SRC + ("halmos.sevm:Message.calldata_slice",)))
+
     out.append(Case(f"{PROP}/sevm.SEVM.run#CALLDATACOPY", "all ranges", harness_cdcopy, replay=replay_arm(hs.OP_CALLDATACOPY, ["dst", "off", "size"], 0, MEM_PREFIX), sources=RUN_SRC + ("halmos.sevm:Message.calldata_slice", "halmos.sevm:State.set_mslice")))
 
     def harness_rdcopy(interp):
@@ -768,6 +786,25 @@ def memory_cases():
 
         out.append(Case(f"{PROP}/sevm.SEVM.run#CODECOPY", f"code of {k} bytes, concrete offsets", harness_codecopy, replay=replay_arm(hs.OP_CODECOPY, ["dst", "off", "size"], 0, MEM_PREFIX), sources=RUN_SRC))
     return out
+
+
+def replay_constructor_calldatacopy(r):
+    """a creator deploys init code that copies its `calldata` into the runtime code; the runtime code is then read back"""
+    from halmos.mapper import BuildOut
+
+    try:
+        BuildOut().set_build_out({})
+    except Exception:  # noqa
+        pass
+    init = bytes([0x60, 0x20, 0x60, 0x00, 0x60, 0x00, hs.OP_CALLDATACOPY, 0x60, 0x20, 0x60, 0x00, hs.OP_RETURN])
+    code = bytes([0x6B]) + init + bytes([0x60, 0, hs.OP_MSTORE, 0x60, 12, 0x60, 20, 0x60, 0, 0xF0, 0x60, 32, 0x60, 0, 0x60, 0, 0x83, hs.OP_EXTCODECOPY, 0x60, 32, 0x60, 0, hs.OP_RETURN])
+    try:
+        outs = run_halmos_concrete(code)
+    except Exception as e:  # noqa
+        return {"reproduced": None, "detail": f"replay could not run: {type(e).__name__}: {e}"}
+    if len(outs) == 1 and outs[0][0] == "return" and outs[0][1] != bytes(32):
+        return {"reproduced": True, "detail": f"CREATE with init code `CALLDATACOPY(0,0,32); RETURN(0,32)`, then the deployed code is read back: halmos deploys {outs[0][1].hex() if isinstance(outs[0][1], bytes) else outs[0][1]} (the init code itself); on the EVM a creation frame has empty calldata and the deployed code is 32 zero bytes", "inputs": code.hex()}
+    return {"reproduced": False, "detail": f"the constructor's CALLDATACOPY reads zeros ({outs})"}
 
 
 def replay_rdcopy(r):
